@@ -792,9 +792,11 @@ impl Shape {
     ) -> Shape {
         let left_iter = left_slist.val.iter();
         let right_iter = right_slist.val.iter();
-        if is_tuple_subset_cached(left_iter, right_slist, symbol_table, seen) {
+        // Narrowing yields the more specific of two compatible shapes: of two tuples that is the
+        // one that has all the fields of the other.
+        if is_tuple_subset_cached(right_iter, left_slist, symbol_table, seen) {
             self.clone()
-        } else if is_tuple_subset_cached(right_iter, left_slist, symbol_table, seen) {
+        } else if is_tuple_subset_cached(left_iter, right_slist, symbol_table, seen) {
             right.clone()
         } else {
             Shape::TypeErr(right.pos().clone(), "Incompatible Tuple Shapes".to_owned())
